@@ -86,6 +86,35 @@ def run(tier):
         os.remove(raw)
         log("  %s: %d behaviours with ledger (%d events), %d bad, ledger %s (%.1fs)" % (
             name, got, len(evs), nbad, "clean" if not tr.violation else why, time.time() - t0))
+    if tier != "quick":
+        # the repository's own 82 tests as trace sources: runs the authors thought were fine, every step through the ledger
+        import subprocess
+        from vlib import OUT, REPO
+        rt = os.path.join(OUT, "repo-tests")
+        os.makedirs(rt, exist_ok=True)
+        raw = os.path.join(rt, "trace.ndjson")
+        for f in (raw, raw + ".seq"):
+            if os.path.exists(f):
+                os.remove(f)
+        env = dict(os.environ, RUSTFLAGS="--cfg ipc_channel_verif", CARGO_TARGET_DIR=os.path.join(rt, "target"),
+                   IPC_VERIF_TRACE=raw, IPC_VERIF_SEQ=raw + ".seq", CARGO_NET_OFFLINE="true")
+        p = subprocess.run(["cargo", "nextest", "run", "--workspace", "--no-fail-fast", "--test-threads", "4", "--offline"],
+                           cwd=REPO, env=env, stdout=subprocess.PIPE, stderr=subprocess.STDOUT, text=True)
+        if os.path.exists(raw):
+            compact = os.path.join(wd, "repo-tests.res.ndjson")
+            evs = rescheck.convert([raw], compact, fork_inheritance=True)
+            tr, why = rescheck.validate(wd, "repo-tests", compact)
+            require_ok(tr, "ResourcesTrace repo-tests")
+            if tr.violation:
+                violations.append({"what": "resource ledger on the repository's own test suite: %s" % why,
+                                   "replay": write_replay("C11", "repo-tests-ledger", {"property": "C11", "why": why}),
+                                   "key": "ledger-repo-tests:" + (why or "")[:60]})
+            else:
+                validated += 82
+                states += tr.distinct
+                transitions += tr.generated
+            log("  repository test suite: %d ledger events, ledger %s" % (len(evs), "clean" if not tr.violation else why))
+            os.remove(raw)
     cov = {"states": states, "transitions": transitions, "traces_validated_against_impl": validated,
            "evaluations": evaluations, "distinct_nontrivial": len(distinct),
            "rule": "behaviours of Channels.tla (create, clone, send small/multi-packet with attachments, receive, transfer, "
